@@ -2,6 +2,7 @@ import Driver.Machine
 import Driver.Sut.MVReg
 import Driver.Sut.Orswot
 import CrdtModel.Model.MapInst
+import CrdtModel.Proofs.MapNestedOrswot
 /-! Driver records for `Map<u64, V, u64>` with V = MVReg, Orswot, Map<_, MVReg> – mirror of harness/src/sut/map.rs. -/
 namespace Driver
 open Crdt
@@ -17,6 +18,13 @@ structure NestedSut (V VOp : Type) where
   /-- serde representation of the nested value and of its op (C19) -/
   codec : Codec V
   opCodec : Codec VOp
+  /-- extra top-level observation of the nested value under a key (`none` = key absent); "" = nothing printed.
+  Orswot: the members with their remove contexts (what the nested-read theorem of C05 speaks about) -/
+  members : Option V → String := fun _ => ""
+  /-- specification of those fields from the log and the knowledge set, inside the second region ("" = no claim) -/
+  spec2 : List (MapOp Nat VOp Nat) → List (MapOp Nat VOp Nat) → String := fun _ _ => ""
+  /-- the extra delivery premise of the second region -/
+  ok2 : List (MapOp Nat VOp Nat) → List (MapOp Nat VOp Nat) → MapOp Nat VOp Nat → Bool := fun _ _ _ => true
 
 def commas (s : String) : String := s.replace " " ","
 
@@ -42,6 +50,48 @@ def isOk {ε α : Type} : Except ε α → Bool
   | .ok _ => true
   | .error _ => false
 
+
+/-- members of a nested set with their remove contexts, `[m:clock;…]` over the member domain {0,1,2} -/
+def showMembers (v : Option OS) : String :=
+  let o := v.getD Orswot.init
+  "[" ++ joinWith ";" (([0, 1, 2] : List Nat).filterMap (fun m =>
+    let c := o.contains m
+    if c.val then some (toString m ++ ":" ++ showClock c.rmClock) else none)) ++ "]"
+
+/-- computable `NLogWF` (Proofs/MapNestedOrswot.lean): key-level LogWF, nested adds carry the dot of their Map op, positive counters,
+a dot names one update -/
+def nlogWF (U : List (MapOp Nat OOp Nat)) : Bool :=
+  orswotWF (U.map CMap.keyOp) &&
+  U.all (fun o => match o with
+    | .up d _ (.add d' _) => decide (d' = d) && decide (0 < d.counter)
+    | .up d _ (.rm _ _) => decide (0 < d.counter)
+    | .rm _ _ => true) &&
+  U.all (fun o => match o with
+    | .up d k x => U.all (fun o' => match o' with
+        | .up d' k' x' => !(decide (d' = d)) || (decide (k' = k) && decide (x' = x))
+        | .rm _ _ => true)
+    | .rm _ _ => true)
+
+/-- the causal premise on contexts (`CMap.CtxOk`): the context of a key remove / nested remove is below the receiver's clock -/
+def ctxOk (K : List (MapOp Nat OOp Nat)) (op : MapOp Nat OOp Nat) : Bool :=
+  let below (c : VClock Nat) : Bool := c.dots.l.all (fun p => decide (p.2 ≤ OrswotSpec.clk (K.map CMap.keyOp) p.1))
+  match op with
+  | .rm c _ => below c
+  | .up _ _ (.rm c _) => below c
+  | .up _ _ (.add _ _) => true
+
+/-- nested-read specification (C05.nested_orswot_witnesses): per key, the members whose witness table `E2` is not all zero, with it -/
+def specNestedOrswot (U K : List (MapOp Nat OOp Nat)) : String :=
+  if nlogWF U && addClosed (U.map CMap.keyOp) (K.map CMap.keyOp) then
+    let actors : List Nat := (K.filterMap (fun o => match o with | .up d _ _ => some d.actor | .rm _ _ => none)).eraseDups
+    String.join (([0, 1, 2] : List Nat).map (fun k =>
+      " nm" ++ toString k ++ "=[" ++ joinWith ";" (([0, 1, 2] : List Nat).filterMap (fun m =>
+        let c : VClock Nat := actors.foldl (fun acc a =>
+          let n := CMap.E2 K k m a
+          if n = 0 then acc else acc.apply ⟨a, n⟩) ∅
+        if c.isEmpty then none else some (toString m ++ ":" ++ showClock c))) ++ "]")) |>.trimAsciiStart.toString
+  else ""
+
 def nestedOR : NestedSut OS OOp where
   ops := Orswot.valOps
   gen := fun v ctx args => match args with
@@ -56,6 +106,9 @@ def nestedOR : NestedSut OS OOp where
   read := fun v => let r := v.read; showNats r.val ++ "@" ++ showCtx' r
   codec := orswotCodec natS natS
   opCodec := orswotOpCodec natS natS
+  members := showMembers
+  spec2 := specNestedOrswot
+  ok2 := fun _ K op => ctxOk K op
 
 section
 variable {V VOp : Type}
@@ -160,7 +213,12 @@ def mapOps (N : NestedSut V VOp) : CrdtOps (MapT V) (MapOpT VOp) where
   showOp := mapShowOp N
   apply := CMap.apply N.ops
   merge := some (CMap.merge N.ops)
-  obs := fun s => mapState N s ++ " " ++ mapReads N s
+  obs := fun s => mapState N s ++ " " ++ mapReads N s ++
+    String.join (mapKeys.map (fun k =>
+      let x := N.members ((s.entries.get? k).map (·.val))
+      if x = "" then "" else " nm" ++ toString k ++ "=" ++ x))
+  spec2 := N.spec2
+  ok2 := N.ok2
   validateOp := fun s op => showMapV (CMap.validateOp N.ops id s op)
   validateMerge := fun s o => showMapMV (CMap.validateMerge N.ops s o)
   resetRemove := some (CMap.resetRemove N.ops)
